@@ -9,25 +9,91 @@ Definition carries_cookie_secret (r : req) : Prop :=
   exists s v t ts, input_token r = Some s /\ s <> [] /\
                    decode s (r_now r) = DTok v t ts /\ t <> [] /\ t = secret r.
 
-Theorem reaches_handler_iff r :
-  ran (handle r) = true <-> gate r = false \/ carries_cookie_secret r.
+(* the request's verb is one the handler class declares (SUPPORTED_METHODS) *)
+Definition declared (r : req) : bool := mem_str (r_method r) (r_supported r).
+
+(* what _execute does once the verb is known to be declared *)
+Definition handle0 (r : req) : resp :=
+  if gate r && negb (xsrf_ok r) then mkresp 403 false None None
+  else
+    match issue (r_outver r) (r_mask r) (raw_token r) with
+    | Some t =>
+        mkresp 200 true (Some t)
+               (match fst (fst (raw_token r)) with None => Some t | Some _ => None end)
+    | None => mkresp 500 true None None
+    end.
+
+Lemma handle_unfold r :
+  handle r = if negb (declared r) then mkresp 405 false None None else handle0 r.
+Proof. reflexivity. Qed.
+
+Lemma handle_declared r : declared r = true -> handle r = handle0 r.
+Proof. intro D. rewrite handle_unfold, D. reflexivity. Qed.
+
+Lemma handle_undeclared r : declared r = false -> handle r = mkresp 405 false None None.
+Proof. intro D. rewrite handle_unfold, D. reflexivity. Qed.
+
+Lemma str_eqb_eq a b : str_eqb a b = true <-> a = b.
+Proof. apply list_eqb_eq. Qed.
+
+Lemma mem_str_In m l : mem_str m l = true <-> In m l.
 Proof.
-  unfold carries_cookie_secret. rewrite <- xsrf_ok_iff. unfold handle.
+  induction l as [|x l IH]; cbn [mem_str In]; [split; [discriminate|tauto]|].
+  rewrite orb_true_iff, IH, str_eqb_eq. split; intros [H|H]; auto.
+Qed.
+
+Lemma reaches0_iff r :
+  ran (handle0 r) = true <-> gate r = false \/ carries_cookie_secret r.
+Proof.
+  unfold carries_cookie_secret. rewrite <- xsrf_ok_iff. unfold handle0.
   destruct (gate r); destruct (xsrf_ok r); cbn [andb negb];
     try (destruct (issue _ _ _)); cbn [ran]; split; auto; intros [H|H]; congruence.
 Qed.
 
-Theorem refusal_is_403 r :
-  ran (handle r) = false -> handle r = mkresp 403 false None None.
+Theorem reaches_handler_iff r :
+  ran (handle r) = true <-> declared r = true /\ (gate r = false \/ carries_cookie_secret r).
 Proof.
-  unfold handle. destruct (gate r && negb (xsrf_ok r)); [reflexivity|].
+  rewrite handle_unfold. destruct (declared r); cbn [negb].
+  - rewrite reaches0_iff. tauto.
+  - cbn [ran]. split; [discriminate|]. intros [H _]. discriminate.
+Qed.
+
+Lemma refusal0_is_403 r :
+  ran (handle0 r) = false -> handle0 r = mkresp 403 false None None.
+Proof.
+  unfold handle0. destruct (gate r && negb (xsrf_ok r)); [reflexivity|].
   destruct (issue _ _ _); cbn [ran]; discriminate.
 Qed.
 
-Theorem status_403_iff r : status (handle r) = 403%Z <-> ran (handle r) = false.
+(* a request that does not reach the handler is answered 405 (verb not declared)
+   or 403 (declared verb, XSRF check failed), with nothing issued *)
+Theorem refusal_is_405_or_403 r :
+  ran (handle r) = false ->
+  (declared r = false /\ handle r = mkresp 405 false None None)
+  \/ (declared r = true /\ handle r = mkresp 403 false None None).
 Proof.
-  unfold handle. destruct (gate r && negb (xsrf_ok r)); [cbn; tauto|].
+  rewrite handle_unfold. destruct (declared r); cbn [negb]; intro H; [right|left]; split; auto.
+  apply refusal0_is_403. exact H.
+Qed.
+
+Lemma status0_403_iff r : status (handle0 r) = 403%Z <-> ran (handle0 r) = false.
+Proof.
+  unfold handle0. destruct (gate r && negb (xsrf_ok r)); [cbn; tauto|].
   destruct (issue _ _ _); cbn [ran status]; split; discriminate.
+Qed.
+
+Theorem status_403_iff r : status (handle r) = 403%Z <-> declared r = true /\ ran (handle r) = false.
+Proof.
+  rewrite handle_unfold. destruct (declared r); cbn [negb].
+  - rewrite status0_403_iff. tauto.
+  - cbn [status ran]. split; [discriminate|]. intros [H _]. discriminate.
+Qed.
+
+Theorem status_405_iff r : status (handle r) = 405%Z <-> declared r = false.
+Proof.
+  rewrite handle_unfold. destruct (declared r); cbn [negb]; [|cbn; tauto].
+  unfold handle0. destruct (gate r && negb (xsrf_ok r)); [cbn; split; discriminate|].
+  destruct (issue _ _ _); cbn [status]; split; discriminate.
 Qed.
 
 Definition config_ok (r : req) : Prop :=
@@ -41,12 +107,13 @@ Proof.
   rewrite (mask_py_4 _ _ L), Hr. eexists; reflexivity.
 Qed.
 
-(* whatever the cookie and the carriers hold, the answer is 200 or 403 *)
+(* whatever the verb, the cookie and the carriers hold, the answer is 200, 403 or 405 *)
 Theorem never_a_server_error r :
-  config_ok r -> status (handle r) = 200%Z \/ status (handle r) = 403%Z.
+  config_ok r -> status (handle r) = 200%Z \/ status (handle r) = 403%Z \/ status (handle r) = 405%Z.
 Proof.
-  intro C. destruct (issue_some r C) as [tk E]. unfold handle.
-  destruct (gate r && negb (xsrf_ok r)); [right; reflexivity|]. rewrite E. left. reflexivity.
+  intro C. destruct (issue_some r C) as [tk E]. rewrite handle_unfold.
+  destruct (declared r); cbn [negb]; [|right; right; reflexivity]. unfold handle0.
+  destruct (gate r && negb (xsrf_ok r)); [right; left; reflexivity|]. rewrite E. left. reflexivity.
 Qed.
 
 Theorem handler_result r :
@@ -55,7 +122,8 @@ Theorem handler_result r :
     handle r = mkresp 200 true (Some tk)
                  (match fst (fst (raw_token r)) with None => Some tk | Some _ => None end).
 Proof.
-  intros C. destruct (issue_some r C) as [tk E]. unfold handle.
+  intros C. destruct (issue_some r C) as [tk E]. rewrite handle_unfold.
+  destruct (declared r); cbn [negb]; [|discriminate]. unfold handle0.
   destruct (gate r && negb (xsrf_ok r)); [discriminate|]. rewrite E. intros _. exists tk. auto.
 Qed.
 
@@ -78,12 +146,12 @@ Qed.
 Theorem other_secret_refused r ov mask v0 tok ts tk :
   bytes tok -> bytes mask ->
   issue ov mask (v0, tok, ts) = Some tk ->
-  input_token r = Some tk -> gate r = true -> tok <> secret r ->
+  input_token r = Some tk -> declared r = true -> gate r = true -> tok <> secret r ->
   handle r = mkresp 403 false None None.
 Proof.
-  intros Bt Bm HI Hin G Hne. apply refusal_is_403.
-  destruct (ran (handle r)) eqn:R; [|reflexivity].
-  apply reaches_handler_iff in R as [R|R]; [congruence|].
+  intros Bt Bm HI Hin Dc G Hne. rewrite (handle_declared r Dc). apply refusal0_is_403.
+  destruct (ran (handle0 r)) eqn:R; [|reflexivity].
+  apply reaches0_iff in R as [R|R]; [congruence|].
   apply xsrf_ok_iff in R. apply (issued_token_accepted_iff r _ _ _ _ _ _ Bt Bm HI Hin) in R. tauto.
 Qed.
 
@@ -113,14 +181,17 @@ Proof. cbn [obs_eqb]. apply list_eqb_refl. Qed.
 (* the model satisfies the checker that is applied to the implementation *)
 Theorem model_satisfies_check r :
   bytes (r_rnd r) -> bytes (r_mask r) -> r_rnd r <> [] ->
-  check_case r (run_case r) = true.
+  check_req r (run_req r) = true.
 Proof.
   intros Br Bm Hr. pose proof (secret_nonempty r Hr) as Hs.
-  unfold run_case, out, handle.
+  unfold run_req, out. rewrite handle_unfold. unfold declared.
+  destruct (mem_str (r_method r) (r_supported r)) eqn:Dc; cbn [negb].
+  2:{ cbn [status ran token set_cookie ostr check_req]. rewrite Dc. reflexivity. }
+  unfold handle0.
   destruct (gate r) eqn:G; destruct (xsrf_ok r) eqn:K; cbn [andb negb orb] in *.
-  2:{ cbn [status ran token set_cookie ostr check_case]. rewrite G, K. reflexivity. }
+  2:{ cbn [status ran token set_cookie ostr check_req]. rewrite Dc, G, K. reflexivity. }
   all: destruct (issue (r_outver r) (r_mask r) (raw_token r)) as [tk|] eqn:HI;
-    cbn [status ran token set_cookie ostr check_case]; rewrite G, K; cbn [negb orb Bool.eqb andb].
+    cbn [status ran token set_cookie ostr check_req]; rewrite Dc, G, K; cbn [negb orb Bool.eqb andb].
   all: try (rewrite (issue_none_cfg r HI); reflexivity).
   all: assert (OK : issued_ok r tk = true);
     [|rewrite OK; cbn [Z.eqb Pos.eqb andb]; destruct (fst (fst (raw_token r))); cbn [ostr]; auto using obs_eqb_bytes].
@@ -138,15 +209,17 @@ Qed.
 Lemma token_is_issue r tk :
   token (handle r) = Some tk -> issue (r_outver r) (r_mask r) (raw_token r) = Some tk.
 Proof.
-  unfold handle. destruct (gate r && negb (xsrf_ok r)); [discriminate|].
+  rewrite handle_unfold. destruct (declared r); cbn [negb]; [|discriminate].
+  unfold handle0. destruct (gate r && negb (xsrf_ok r)); [discriminate|].
   destruct (issue _ _ _); cbn [token]; congruence.
 Qed.
 
-Lemma xsrf_ok_runs r : xsrf_ok r = true -> ran (handle r) = true /\ status (handle r) <> 403%Z.
+Lemma xsrf_ok_runs r :
+  declared r = true -> xsrf_ok r = true -> ran (handle r) = true /\ status (handle r) <> 403%Z.
 Proof.
-  intro K. assert (R : ran (handle r) = true).
-  { apply reaches_handler_iff. right. apply xsrf_ok_iff. exact K. }
-  split; [exact R|]. intro S. apply status_403_iff in S. congruence.
+  intros Dc K. assert (R : ran (handle r) = true).
+  { apply reaches_handler_iff. split; [exact Dc|]. right. apply xsrf_ok_iff. exact K. }
+  split; [exact R|]. intro S. apply status_403_iff in S as [_ S]. congruence.
 Qed.
 
 (* every token the application hands out (any output version, any mask) is
@@ -157,14 +230,15 @@ Qed.
 Theorem issued_token_reaches_handler r r' tk :
   bytes (r_rnd r) -> bytes (r_mask r) ->
   token (handle r) = Some tk -> r_rnd r <> [] ->
-  input_token r' = Some tk ->
+  declared r' = true -> input_token r' = Some tk ->
   r_cookie r' = match set_cookie (handle r) with Some c => Some c | None => r_cookie r end ->
   ran (handle r') = true /\ status (handle r') <> 403%Z.
 Proof.
-  intros Br Bm HT Hs Hin Hc. pose proof (token_is_issue r tk HT) as HI.
-  apply xsrf_ok_runs. apply (issued_accepted r r' tk Br Bm HI Hs Hin).
-  rewrite Hc. unfold handle. destruct (gate r && negb (xsrf_ok r)) eqn:G.
-  - revert HT. unfold handle. rewrite G. discriminate.
+  intros Br Bm HT Hs Dc' Hin Hc. pose proof (token_is_issue r tk HT) as HI.
+  apply (xsrf_ok_runs r' Dc'). apply (issued_accepted r r' tk Br Bm HI Hs Hin).
+  rewrite Hc. revert HT. rewrite handle_unfold. destruct (declared r); cbn [negb]; [|discriminate].
+  unfold handle0. destruct (gate r && negb (xsrf_ok r)) eqn:G; intro HT.
+  - discriminate.
   - rewrite HI. cbn [set_cookie]. destruct (fst (fst (raw_token r))); reflexivity.
 Qed.
 
@@ -179,7 +253,7 @@ Proof.
   assert (T : Forall tokc tk /\ tk <> []).
   { unfold secret in Bs, Hs. destruct (raw_token r) as [[v0 tok] ts]. cbn [fst snd] in *.
     split; [exact (issue_tokc _ _ _ _ _ _ Bs Bm HI)|exact (issue_nonempty _ _ _ _ _ _ HI Hs)]. }
-  destruct T as [T Ne]. apply xsrf_ok_runs.
+  destruct T as [T Ne]. apply xsrf_ok_runs; [reflexivity|].
   apply (issued_accepted r _ tk Br Bm HI Hr); [apply follow_up_input; auto|reflexivity].
 Qed.
 
@@ -189,7 +263,8 @@ Theorem set_cookie_carries_fresh_secret r c now' :
   set_cookie (handle r) = Some c ->
   token (handle r) = Some c /\ exists ts, decode c now' = DTok (r_outver r) (r_rnd r) ts.
 Proof.
-  intros Br Bm. unfold handle. destruct (gate r && negb (xsrf_ok r)); [discriminate|].
+  intros Br Bm. rewrite handle_unfold. destruct (declared r); cbn [negb]; [|discriminate].
+  unfold handle0. destruct (gate r && negb (xsrf_ok r)); [discriminate|].
   destruct (issue _ _ _) as [tk|] eqn:HI; [|discriminate]. cbn [set_cookie token].
   destruct (raw_cases r) as [(c0 & cs & v1 & t1 & ts1 & _ & _ & _ & E1)|E1]; rewrite E1 in *; cbn [fst snd]; [discriminate|].
   intros [= ->]. split; [reflexivity|].
@@ -199,7 +274,7 @@ Qed.
 (* ---------- non-vacuity ---------- *)
 Definition ex_cookie : str := [97;98;48;99].                     (* "ab0c": version 1, secret ab 0c *)
 Definition ex_req : req :=
-  mkreq true POST 2 (Some ex_cookie) [[50;124;48;48;48;48;48;48;48;48;124;97;98;48;99;124;53]] None None
+  mkreq true M_POST default_supported 2 (Some ex_cookie) [[50;124;48;48;48;48;48;48;48;48;124;97;98;48;99;124;53]] None None
         [1;2;3;4;5;6;7;8;9;10;11;12;13;14;15;16] [17;34;51;68] 1700000000.
 
 Example ex_config_ok : config_ok ex_req.
@@ -223,7 +298,7 @@ Theorem empty_secret_cookie_is_replaced r c cs v ts :
 Proof. intros Hc D. unfold raw_token. rewrite Hc, D. reflexivity. Qed.
 
 Example empty_secret_cookie_gets_a_working_token :
-  let r := mkreq true GET 2 (Some [50;124;48;48;48;48;48;48;48;48;124;124;53]) [] None None
+  let r := mkreq true M_GET default_supported 2 (Some [50;124;48;48;48;48;48;48;48;48;124;124;53]) [] None None
                  [1;2;3;4;5;6;7;8;9;10;11;12;13;14;15;16] [17;34;51;68] 1700000000 in
   decode [50;124;48;48;48;48;48;48;48;48;124;124;53] 1700000000 = DTok 2 [] 5 /\
   match token (handle r) with
@@ -236,13 +311,68 @@ Proof. split; vm_compute; [reflexivity|]. split; reflexivity. Qed.
    GETs a form (no cookie) and then PUTs with the token in X-XSRFToken while the
    form field holds only white space, under other settings, clock and randomness *)
 Example ex_session :
-  let r := mkreq true GET 2 None [] None None [1;2;3;4;5;6;7;8;9;10;11;12;13;14;15;16] [17;34;51;68] 1700000000 in
+  let r := mkreq true M_GET default_supported 2 None [] None None [1;2;3;4;5;6;7;8;9;10;11;12;13;14;15;16] [17;34;51;68] 1700000000 in
   match token (handle r) with
   | Some tk =>
-      let r' := mkreq true PUT 1 (Some tk) [[32]] (Some tk) (Some [120]) [] [9;9;9;9] 1800000000 in
-      set_cookie (handle r) = Some tk /\ r_rnd r <> [] /\ input_token r' = Some tk /\
+      let r' := mkreq true [80;85;84] default_supported 1 (Some tk) [[32]] (Some tk) (Some [120]) [] [9;9;9;9] 1800000000 in
+      set_cookie (handle r) = Some tk /\ r_rnd r <> [] /\ declared r' = true /\ input_token r' = Some tk /\
       r_cookie r' = match set_cookie (handle r) with Some c => Some c | None => r_cookie r end /\
       ran (handle r') = true
   | None => False
   end.
 Proof. vm_compute. repeat split; try reflexivity; discriminate. Qed.
+
+(* ---------- every verb other than exactly GET / HEAD / OPTIONS is protected ---------- *)
+Lemma safe_method_iff m : safe_method m = true <-> m = M_GET \/ m = M_HEAD \/ m = M_OPTIONS.
+Proof.
+  unfold safe_method. rewrite mem_str_In. cbn [In]. split; intros H; intuition auto.
+Qed.
+
+(* for EVERY method string (standard, custom verbs declared through
+   SUPPORTED_METHODS, other spellings of the exempt names): with xsrf_cookies on,
+   a request whose verb is not exactly GET, HEAD or OPTIONS reaches the handler
+   only with a token that decodes to the non-empty secret of its cookie *)
+Theorem non_exempt_method_requires_token r :
+  r_xsrf_on r = true ->
+  r_method r <> M_GET -> r_method r <> M_HEAD -> r_method r <> M_OPTIONS ->
+  ran (handle r) = true -> carries_cookie_secret r.
+Proof.
+  intros On N1 N2 N3 R. apply reaches_handler_iff in R as [_ [G|C]]; [|exact C].
+  exfalso. unfold gate in G. rewrite On, andb_true_r in G. apply negb_false_iff in G.
+  apply safe_method_iff in G. tauto.
+Qed.
+
+(* ... and without one it is answered 403 (if the handler declares the verb) or 405 *)
+Theorem non_exempt_method_without_token_refused r :
+  r_xsrf_on r = true ->
+  r_method r <> M_GET -> r_method r <> M_HEAD -> r_method r <> M_OPTIONS ->
+  ~ carries_cookie_secret r ->
+  ran (handle r) = false /\ (status (handle r) = 403%Z \/ status (handle r) = 405%Z).
+Proof.
+  intros On N1 N2 N3 NC.
+  assert (R : ran (handle r) = false).
+  { destruct (ran (handle r)) eqn:R; [|reflexivity]. exfalso. apply NC.
+    apply non_exempt_method_requires_token; assumption. }
+  split; [exact R|]. destruct (refusal_is_405_or_403 r R) as [[_ ->]|[_ ->]]; cbn [status]; auto.
+Qed.
+
+(* the exempt verbs, and everything when xsrf_cookies is off, are never checked *)
+Theorem exempt_or_disabled_reaches_handler r :
+  declared r = true ->
+  (r_xsrf_on r = false \/ r_method r = M_GET \/ r_method r = M_HEAD \/ r_method r = M_OPTIONS) ->
+  ran (handle r) = true.
+Proof.
+  intros Dc H. apply reaches_handler_iff. split; [exact Dc|]. left. unfold gate.
+  destruct H as [-> | H]; [apply andb_false_r|].
+  apply safe_method_iff in H. rewrite H. reflexivity.
+Qed.
+
+Example ex_propfind :
+  let sup := default_supported ++ [[80;82;79;80;70;73;78;68]] in
+  let r := mkreq true [80;82;79;80;70;73;78;68] sup 2 (Some ex_cookie) [] None None
+                 [1;2;3;4;5;6;7;8;9;10;11;12;13;14;15;16] [17;34;51;68] 1700000000 in
+  declared r = true /\ r_method r <> M_GET /\ r_method r <> M_HEAD /\ r_method r <> M_OPTIONS /\
+  handle r = mkresp 403 false None None /\
+  handle (mkreq true [103;101;116] (sup ++ [[103;101;116]]) 2 (Some ex_cookie) [] None None
+                [1;2;3;4;5;6;7;8;9;10;11;12;13;14;15;16] [17;34;51;68] 1700000000) = mkresp 403 false None None.
+Proof. repeat split; try discriminate; vm_compute; reflexivity. Qed.
